@@ -273,6 +273,26 @@ class Layouts:
         self._cache = {}
 
     # ----------------------------------------------------------------- API
+    def const_of(self, mod, depth=0):
+        """name -> number: module constants, including those computed from construct sizes (X.sizeof() sums)"""
+        base_const_of = self.folder.const_of(mod)
+
+        def const_of(name):
+            try:
+                return base_const_of(name)
+            except KeyError:
+                r_ = self.prog.resolve(mod, name)
+                if r_ and r_[0] == "assign" and depth < 3:
+                    try:
+                        v_ = self.const(r_[1], Env(r_[2]))
+                    except Exception:
+                        raise KeyError(name)
+                    if isinstance(v_, int) and not isinstance(v_, bool):
+                        return v_
+                raise KeyError(name)
+
+        return const_of
+
     def of_name(self, mod, name):
         key = (mod.name, name)
         if key not in self._cache:
@@ -333,9 +353,17 @@ class Layouts:
             if p:
                 return Sym(p)
             try:
-                return self.const(node.body, env)
+                v_ = self.const(node.body, env)
             except Unknown:
-                return Sym("<" + " ".join(ast.unparse(node.body).split())[:50] + ">")
+                v_ = None
+            if v_ is None or (isinstance(v_, Sym) and v_.name.startswith("<")):
+                # context-dependent: the canonical (E-AFF) form of the expression, not its spelling
+                try:
+                    return Sym("<" + Describer(self).canon(node, env.mod) + ">")
+                except Exception:
+                    if v_ is None:
+                        return Sym("<" + " ".join(ast.unparse(node.body).split())[:50] + ">")
+            return v_
         if isinstance(node, ast.Attribute):
             p = this_path(node, {"this", "obj_"})
             if p:
@@ -718,7 +746,14 @@ class Describer:
             return [self.canon(n, mod, depth) for n in node]
         if not isinstance(node, ast.AST):
             return self._val(node)
-        const_of = self.folder.const_of(mod)
+        const_of = self.L.const_of(mod, depth)
+
+        def fold_sizeof(n_):
+            if isinstance(n_, ast.Call) and isinstance(n_.func, ast.Attribute) and n_.func.attr == "sizeof" and not n_.args and not n_.keywords:
+                v_ = self.L.const(n_, Env(mod))
+                if isinstance(v_, int) and not isinstance(v_, bool):
+                    return v_
+            raise ValueError("not a static size")
 
         def func_of(name):
             r = self.prog.resolve(mod, name)
@@ -732,7 +767,7 @@ class Describer:
 
         if isinstance(node, ast.Lambda):
             params = [a.arg for a in node.args.args]
-            ev = Evaluator(const_of=const_of, func_of=func_of, this_names=(params[0],) if params else ())
+            ev = Evaluator(const_of=const_of, func_of=func_of, this_names=(params[0],) if params else (), fold=fold_sizeof)
             env = {p: Term.atom("ctx" if i else "this") for i, p in enumerate(params)}
             env.pop(params[0], None) if params else None
             ev.env = env
